@@ -200,6 +200,8 @@ type vCtl struct {
 	mapPixels  int
 	chanNum0   int  // channel number of channel index 0
 	archiving  bool // a raw-data request may still be pending
+	lenUnknown bool // a refused length change may have been applied to some channels: shapes are no longer predictable
+	emtOn      bool // an edge-multi request was accepted: validity of record lengths now also depends on its parameters
 	hist       []string
 	dead       bool
 }
@@ -320,6 +322,7 @@ func (k *vCtl) startSource() bool {
 	case "lancero":
 		card := vEndlessCard(3, 2, uint64(k.c.R.Int63()))
 		ls := sc.lancero
+		card.backlog = func() int { return len(ls.buffersChan) }
 		ls.nsamp = 1
 		dev := &LanceroDevice{devnum: 0, nrows: 3, lsync: 2000, clockMHz: 125, card: card}
 		ls.devices = map[int]*LanceroDevice{0: dev}
@@ -385,6 +388,14 @@ func (k *vCtl) gate() string {
 	return ""
 }
 
+// queuedWantEarly: for requests whose arguments are checked before the source check ("err" stays "err").
+func (k *vCtl) queuedWantEarly(want string) string {
+	if want == "err" {
+		return "err"
+	}
+	return k.queuedWant(want)
+}
+
 func (k *vCtl) queuedWant(validIfActive string) string {
 	if g := k.gate(); g != "" {
 		return g
@@ -426,6 +437,29 @@ func (k *vCtl) reqTriggers() {
 		}
 	}
 	fts := FullTriggerState{ChannelIndices: idx}
+	if want == "ok" && vChance(r, 0.25) {
+		// edge-multi through the RPC-compatible fields, all three record modes (incl. invalid combinations)
+		fts.EdgeMulti = true
+		fts.EdgeMultiLevel = int32(vPick(r, 3, 5, 20, -4))
+		fts.EdgeMultiVerifyNMonotone = vPick(r, 1, 1, 2)
+		fts.EdgeMultiMakeShortRecords = vChance(r, 0.5)
+		fts.EdgeMultiMakeContaminatedRecords = vChance(r, 0.3)
+		fts.EdgeMultiNoise = vChance(r, 0.1)
+		fts.EdgeMultiDisableZeroThreshold = vChance(r, 0.5)
+		if fts.EdgeMultiNoise || (fts.EdgeMultiMakeShortRecords && fts.EdgeMultiMakeContaminatedRecords) {
+			want = "err"
+		} else {
+			want = "any" // validity of the remaining parameter combinations is not fixed by the statement
+		}
+		k.c.Cov("edge_multi_requests", 1)
+		var okay bool
+		err, ret := k.do(fmt.Sprintf("ConfigureTriggers(%v,edge-multi short=%v contaminated=%v level=%d)", idx, fts.EdgeMultiMakeShortRecords, fts.EdgeMultiMakeContaminatedRecords, fts.EdgeMultiLevel),
+			k.queuedWantEarly(want), func() error { return k.sc.ConfigureTriggers(&fts, &okay) })
+		if ret && err == nil && want == "any" {
+			k.emtOn = true
+		}
+		return
+	}
 	fts.AutoTrigger = vChance(r, 0.7)
 	fts.AutoDelay = time.Duration(r.Intn(3)) * time.Millisecond
 	fts.LevelTrigger, fts.LevelRising, fts.LevelLevel = vChance(r, 0.5), true, 200
@@ -448,6 +482,8 @@ func (k *vCtl) reqPulseLengths() {
 		want = "err"
 	case p.npre < 3 || p.ns < p.npre+1:
 		want = "err"
+	case k.emtOn:
+		want = "any" // edge-multi parameters restrict the admissible lengths further
 	}
 	if g := k.gate(); g != "" {
 		// the non-queued early answers (non-positive, unchanged) may come before the source check
@@ -458,7 +494,10 @@ func (k *vCtl) reqPulseLengths() {
 	}
 	var okay bool
 	err, ret := k.do(fmt.Sprintf("ConfigurePulseLengths(nsamp=%d,npre=%d)", p.ns, p.npre), want, func() error { return k.sc.ConfigurePulseLengths(SizeObject{Nsamp: p.ns, Npre: p.npre}, &okay) })
-	if ret && err == nil && want == "ok" && !(p.ns == k.ns && p.npre == k.npre) {
+	if ret && want == "any" && err != nil {
+		k.lenUnknown = true // the change may have been applied to some channels only
+	}
+	if ret && err == nil && (want == "ok" || want == "any") && !(p.ns == k.ns && p.npre == k.npre) && k.gate() == "" {
 		k.ns, k.npre = p.ns, p.npre
 		k.hasProj = map[int]bool{} // projectors sized for the old length no longer fit; the model forgets them conservatively
 	}
@@ -503,6 +542,9 @@ func (k *vCtl) reqProjectors() {
 		bb64, want = "AAAA", "err"
 	}
 	w := want
+	if (k.lenUnknown || k.emtOn) && want == "ok" {
+		want, w = "any", "any" // shapes unknown, or refused because the channel makes variable-length records
+	}
 	if kind < 5 || kind == 9 {
 		w = k.queuedWant(want) // these reach the queue; the malformed ones are refused before
 	}
@@ -510,7 +552,7 @@ func (k *vCtl) reqProjectors() {
 	err, ret := k.do(fmt.Sprintf("ConfigureProjectorsBasis(ch=%d,kind=%d)", ch, kind), w, func() error {
 		return k.sc.ConfigureProjectorsBasis(&ProjectorsBasisObject{ChannelIndex: ch, ProjectorsBase64: pb64, BasisBase64: bb64, ModelDescription: "m"}, &okay)
 	})
-	if ret && err == nil && w == "ok" {
+	if ret && err == nil && (w == "ok" || (w == "any" && want != "err")) && ch >= 0 && ch < k.nchan {
 		k.hasProj[ch] = true
 	}
 }
@@ -1037,7 +1079,7 @@ func init() {
 			Assumptions: []string{"single client (one goroutine issuing requests)", "the fire-and-forget mode of SetExperimentStateLabel is excluded as the property says", "where the statement does not fix the reply (raw-block size 0, deleting a connection that cannot exist, reading a comment after self-termination) either reply is accepted",
 				"hangs are decided by wait-state analysis of two goroutine dumps 2 s apart after a 15 s watchdog, never by the clock alone"},
 			Guards: map[string]map[string]int{
-				"quick":    {"requests": 2500, "progress_checks": 1000, "requests_while_block_in_process": 100, "requests_after_self_termination": 150, "requests_pending_when_source_ends": 8, "io_fault_comment": 5, "effects_run": 800, "source_triangle": 40, "source_lancero": 20, "source_selfend": 40, "source_erroring": 20, "writing_sessions": 60},
+				"quick":    {"requests": 2500, "progress_checks": 1000, "requests_while_block_in_process": 100, "requests_after_self_termination": 150, "requests_pending_when_source_ends": 8, "io_fault_comment": 5, "effects_run": 800, "source_triangle": 40, "source_lancero": 20, "source_selfend": 40, "source_erroring": 20, "writing_sessions": 30},
 				"thorough": {"requests": 30000, "requests_after_self_termination": 2000},
 			}},
 	})
